@@ -10,7 +10,7 @@ pub const TOK: &[&str] = &[
     "ad", "ads", "adv", "advert", "banner", "img", "track", "foo", "bar", "x1", "js", "www", "com",
     "http", "https", "a", "b7", "pixel", "net",
 ];
-pub const SEP: &[&str] = &["/", ".", "-", "_", "?", "=", "&", "/", ":", ";", "~", ","];
+pub const SEP: &[&str] = &["/", ".", "-", "_", "?", "=", "&", "/", ":", ";", "~", ",", "*", "!"];
 pub const HOSTS: &[&str] = &[
     "ads.net",
     "sub.ads.net",
@@ -488,7 +488,8 @@ pub fn instantiate_body(r: &mut Rng, rule: &str) -> String {
     for c in body.chars() {
         match c {
             '*' => out.push_str(r.ps(&["zz", "", "/q/", "x"])),
-            '^' => out.push_str(r.ps(&["/", "?", ":", "&", "="])),
+            // (a literal `*` in a URL is just another separator character)
+            '^' => out.push_str(r.ps(&["/", "?", ":", "&", "=", "*", "/", "?"])),
             c => out.push(c),
         }
     }
@@ -563,13 +564,28 @@ pub fn gen_request(r: &mut Rng, rules: &[String]) -> Req {
             "?a-b=1&foo=&ad",
         ]));
     }
+    // a rule-derived body that occurs only in the fragment (matching runs over the whole URL)
+    if !rules.is_empty() && r.chance(1, 8) {
+        let rule = r.pick(rules);
+        let t = rule.trim_start_matches("@@");
+        if !t.starts_with('|') && !path.contains('#') {
+            let b = instantiate_body(r, rule);
+            if !b.is_empty() && !b.contains('#') {
+                path.push_str("#/");
+                path.push_str(b.trim_start_matches('/'));
+                if r.chance(1, 2) {
+                    path.push_str(r.ps(&["1", ".js", "/x"]));
+                }
+            }
+        }
+    }
     // a URL that ends exactly with the body of an end-anchored rule
     if !rules.is_empty() && r.chance(1, 5) {
         let rule = r.pick(rules);
         let body_end = rule.rfind('$').unwrap_or(rule.len());
         let t = rule[..body_end].trim_start_matches("@@");
         if t.ends_with('|') && !t.starts_with("||") && !t.starts_with("|http") && !t.starts_with("|ws") && t.len() > 2 {
-            if let Some(i) = path.find('?') {
+            if let Some(i) = path.find(|c| c == '?' || c == '#') {
                 path.truncate(i);
             }
             path.push_str(r.ps(SEP));
